@@ -44,3 +44,38 @@ Theorem C15_results_names_are_those_of_the_grammar :
   forall f n doact e p cp p' r eff, noname k n e = true -> run env act src f doact e p cp = POk p' r eff -> has_key r k = false.
 Proof. intros env act src k Henv f n doact e p cp p' r eff Hn H. exact (names_sound env act src k Henv f n doact e p cp Hn _ _ _ H). Qed.
 Print Assumptions C15_results_names_are_those_of_the_grammar.
+
+(* ---- the option lives in the flag of the Database object (proofs/FlagC.v) ---- *)
+From PyDBML Require Import PyStr Py Heap Classes Tools RenderSQL RenderDBML Entry DdlText DbmlText FlagC.
+(* the database returned by a parse carries exactly the option that was passed: every write to the database object during the
+   build keeps the flag (typed stores: what is stored over a database is a database with the same flag) *)
+Theorem C15_parsed_database_carries_the_option :
+  forall source allow sq dq h h' d, parser_parse source allow sq dq h = (h', Ok d) ->
+    exists db, h_database h' d = Some db /\ d_allow_properties db = allow.
+Proof. exact parser_parse_keeps_the_option. Qed.
+Print Assumptions C15_parsed_database_carries_the_option.
+
+(* rendering follows the flag as it is now: a column line lists the column's arbitrary properties exactly when the flag of its
+   table's database is set, whatever the column carries; a table block has no properties when the flag is off *)
+Theorem C15_column_properties_are_rendered_exactly_when_the_flag_is_set :
+  forall rd h cid c s, dbml_column rd h cid c = Ok s ->
+  exists inl dflt nt ty,
+    s = with_comment_dbml (c_comment c)
+          (q2 (fstr (c_name c)) ++ cSP :: ty
+           ++ settings (inl ++ flag (c_pk c) (s2l "pk") ++ flag (c_autoinc c) (s2l "increment") ++ dflt
+                        ++ flag (c_unique c) (s2l "unique") ++ flag (c_not_null c) (s2l "not null")
+                        ++ (if is_nil nt then [] else [note_option_to_dbml nt])
+                        ++ (if column_flag h c then props_items (c_properties c) else []))).
+Proof. exact column_properties_follow_the_flag. Qed.
+Print Assumptions C15_column_properties_are_rendered_exactly_when_the_flag_is_set.
+
+Theorem C15_table_block_has_no_properties_when_the_flag_is_off :
+  forall rd h t s, dbml_table rd h t = Ok s -> table_flag h t = false ->
+  exists rows notes idx,
+    s = with_comment_dbml (t_comment t)
+          ((s2l "Table " ++ full_name_for_dbml (t_schema t) (t_name t) ++ [cSP]
+            ++ (if truthy (t_alias t) then s2l "as " ++ q2 (fstr (t_alias t)) ++ [cSP] else [])
+            ++ (if truthy (t_header_color t) then s2l "[headercolor: " ++ fstr (t_header_color t) ++ s2l "] " else []))
+           ++ s2l "{" ++ cLF :: textwrap_indent (join [cLF] rows) (s2l "    ") ++ cLF :: [] ++ notes ++ idx ++ s2l "}").
+Proof. exact table_properties_follow_the_flag. Qed.
+Print Assumptions C15_table_block_has_no_properties_when_the_flag_is_off.
